@@ -291,6 +291,8 @@ async def one_call(C: Ctx, case: dict[str, Any]) -> None:
         ctl: dict[str, Any] = {"raise": hand, "leak": leak, "cancel_inside": cancel_inside and deco == "traced-async"}
         if "ret" in ctl_ref:
             ctl["ret"] = ctl_ref["ret"]
+        if deco in ("traced-async", "wrap_async-of-async") and outcome == "value" and case.get("form", 0) % 2 == 0:
+            ctl["spawns"] = True
         if deco.startswith("traced"):
             ctl["log"] = "traced-body"
         if deco in ("wrap_async-of-async", "traced-async"):
@@ -299,6 +301,14 @@ async def one_call(C: Ctx, case: dict[str, Any]) -> None:
             async def async_version(ctl: dict[str, Any], *a: Any, **k: Any) -> Any:
                 """doc of async version"""
                 await asyncio.sleep(0)
+                if ctl.get("spawns"):
+                    # the function starts a background task (it goes to the CALLER's scope, as without the decorator) and returns at once
+                    async def background() -> None:
+                        for _ in range(6):
+                            await asyncio.sleep(0)
+                        ctl["background_done"] = True
+
+                    ctl["background"] = ctx.spawn(background)
                 if ctl.get("cancel_inside"):
                     t = asyncio.current_task()
                     assert t is not None
@@ -343,6 +353,11 @@ async def one_call(C: Ctx, case: dict[str, Any]) -> None:
         if blocker is not None:
             blocker["release"].set()
             await hb
+        if ctl.get("background") is not None:
+            R.count("decorated_functions_that_spawn")
+            R.monitor("transparent", not ctl.get("background_done"), where={**where, "kind": "call-waited-for-its-background-task"},
+                      detail=f"{deco}: the function spawned a background task and returned; the decorated call came back only after that task had finished (the plain function returns at once)", case=case)
+            await asyncio.gather(ctl["background"], return_exceptions=True)
         after_probe = _probe()
         # ---- transparent ------------------------------------------------------------------------------------------
         if ctl["cancel_inside"]:
